@@ -205,8 +205,9 @@ func (m *monC09) Finish(rc *RunCtx) {
 							break
 						}
 					}
-					// (a crop that is left standing for more than a year after its last reported stage arrives whole years early)
-					if !okWalk || at.Zeit() > c.harvest || at.DOY() != DateOfZeit(c.harvest).DOY() || (at.Zeit() != c.harvest && c.harvest-c.sow < 500) {
+					// (a ripe crop that waits for a harvest deadline in a later year arrives whole years early: only the day of year can be
+					// compared then; a date that is out of order still costs a year and ends BEHIND the harvest)
+					if !okWalk || at.Zeit() > c.harvest || at.DOY() != DateOfZeit(c.harvest).DOY() {
 						rc.Violate("C09", "reported_phenology_out_of_order", fmt.Sprintf("crop record %d (%s): sowing %s, reported days of year emergence %s anthesis %s maturity %s harvest %s do not lie in this order before the harvest on %s", recs+1, strings.TrimSpace(f[0]), DateOfZeit(c.sow), strings.TrimSpace(f[3]), strings.TrimSpace(f[4]), strings.TrimSpace(f[5]), strings.TrimSpace(f[6]), hd), c.harvest, 0, nil)
 					} else {
 						rc.Cov("crop_records_phenology_order_checked", 1)
